@@ -2061,7 +2061,7 @@ class Irc(IrcCommandDispatcher, log.Firewalled):
         L = list(nick)
         while len(L) <= 3:
             L.append('`')
-        while ret in self.triedNicks:
+        while ret in self.triedNicks or ret == self.nick:
             L[random.randrange(len(L))] = utils.iter.choice('0123456789')
             ret = ''.join(L)
         self.triedNicks.add(ret)
